@@ -87,19 +87,39 @@ def stmt (a : A) (setImm : Bool) (sv : Stmt) (f : Nat → Bool) : R :=
     else execStmt [⟨.begin, true⟩] { a1 with inTx := true } sv (f 1) 1
   else execStmt [] a1 sv (f 0) 0
 
+/-- `prepare_connection_for_query_execution` up to its auto-flush: connect / set_transaction_mode as in `stmt`, no statement -/
+def prep (a1 : A) (f : Nat → Bool) : R :=
+  if !a1.conn then
+    if !a1.pool then
+      if f 0 then ⟨[⟨.connect, false⟩], a1, false, 1⟩
+      else if a1.imm then
+        if f 1 then ⟨[⟨.connect, true⟩, ⟨.begin, false⟩, ⟨.close, true⟩], { a1 with pool := false, conn := false, inTx := false }, false, 2⟩
+        else ⟨[⟨.connect, true⟩, ⟨.begin, true⟩], { a1 with pool := true, conn := true, inTx := true }, true, 2⟩
+      else ⟨[⟨.connect, true⟩], { a1 with pool := true, conn := true }, true, 1⟩
+    else if a1.imm then
+      if f 0 then ⟨[⟨.begin, false⟩, ⟨.close, true⟩], { a1 with pool := false, conn := false, inTx := false }, false, 1⟩
+      else ⟨[⟨.begin, true⟩], { a1 with conn := true, inTx := true }, true, 1⟩
+    else ⟨[], { a1 with conn := true }, true, 0⟩
+  else if a1.imm && !a1.inTx then
+    if f 0 then ⟨[⟨.begin, false⟩], a1, false, 1⟩
+    else ⟨[⟨.begin, true⟩], { a1 with inTx := true }, true, 1⟩
+  else ⟨[], a1, true, 0⟩
+
 /-- `SessionCache.close(rollback=True)`; `dbt`: the database transaction is open (after a refused COMMIT `in_transaction`
     is already False).  `si`: `db_session.immediate` (the next SessionCache starts with it) -/
-def closeRb (a : A) (si : Bool) (f : Nat → Bool) : R :=
+def closeRb (a : A) (si : Bool) (ddl : Bool) (f : Nat → Bool) : R :=
   let fresh : A := { pool := a.pool, conn := false, inTx := false, imm := si }
   if !a.conn then ⟨[], fresh, true, 0⟩
   else if f 0 then ⟨[⟨.rollback, false⟩, ⟨.close, true⟩], { fresh with pool := false }, false, 1⟩       -- provider.drop
+  else if ddl then ⟨[⟨.rollback, true⟩, ⟨.close, true⟩], { fresh with pool := false }, true, 1⟩          -- DBAPIProvider.release of a ddl session: drop
   else if f 1 then ⟨[⟨.rollback, true⟩, ⟨.rollback, false⟩, ⟨.close, true⟩], { fresh with pool := false }, false, 2⟩
   else ⟨[⟨.rollback, true⟩, ⟨.rollback, true⟩], fresh, true, 2⟩                                         -- + Pool.release
 
 /-- `SessionCache.release()` = close(rollback=False): Pool.release = con.rollback() -/
-def release (a : A) (si : Bool) (f : Nat → Bool) : R :=
+def release (a : A) (si : Bool) (ddl : Bool) (f : Nat → Bool) : R :=
   let fresh : A := { pool := a.pool, conn := false, inTx := false, imm := si }
   if !a.conn then ⟨[], fresh, true, 0⟩
+  else if ddl then ⟨[⟨.close, true⟩], { fresh with pool := false }, true, 0⟩     -- a ddl session never returns its connection to the pool
   else if f 0 then ⟨[⟨.rollback, false⟩, ⟨.close, true⟩], { fresh with pool := false }, false, 1⟩
   else ⟨[⟨.rollback, true⟩], fresh, true, 1⟩
 
@@ -120,12 +140,26 @@ def cacheFlush (opens : Entry → Bool) (flushImm : Bool) (a : A) (ws : List (En
   let r := flushLoop opens { a with imm := a.imm || flushImm } ws f
   ⟨r.evs, { r.a with imm := if r.a.inTx then r.a.imm else prev }, r.ok, r.used⟩      -- finally: if not in_transaction: restore
 
+/-- a statement sent while modifications are pending: `prepare_connection_for_query_execution` connects (BEGIN only when
+    `cache.immediate`), THEN runs `cache.flush()` (whose statements find the connection and begin the transaction on it), then
+    the statement itself is executed -/
+def autoFlushStmt (opens : Entry → Bool) (flushImm : Bool) (a : A) (setImm : Bool) (ws : List (Entry × List RowWrite)) (sv : Stmt)
+    (f : Nat → Bool) : R :=
+  let r := prep { a with imm := a.imm || setImm } f
+  if !r.ok then r
+  else
+    let r2 := cacheFlush opens flushImm r.a ws (fun k => f (k + r.used))
+    if !r2.ok then ⟨r.evs ++ r2.evs, r2.a, false, r.used + r2.used⟩
+    else
+      let r3 := execStmt [] r2.a sv (f (r.used + r2.used)) 0
+      ⟨r.evs ++ r2.evs ++ r3.evs, r3.a, r3.ok, r.used + r2.used + r3.used⟩
+
 /-- `SessionCache.commit` after the flush: COMMIT when a transaction is open; on failure `cache.rollback()` -/
-def cacheCommit (a : A) (si : Bool) (f : Nat → Bool) : R :=
+def cacheCommit (a : A) (si : Bool) (ddl : Bool) (f : Nat → Bool) : R :=
   if a.inTx then
     if f 0 then
       -- provider.commit raised; its `finally` has set in_transaction False; the transaction is still open
-      let r := closeRb { a with inTx := false } si (fun k => f (k + 1))
+      let r := closeRb { a with inTx := false } si ddl (fun k => f (k + 1))
       ⟨⟨.commit, false⟩ :: r.evs, r.a, false, 1 + r.used⟩
     else ⟨[⟨.commit, true⟩], { a with inTx := false, imm := true }, true, 1⟩
   else ⟨[], { a with imm := true }, true, 0⟩
@@ -138,51 +172,55 @@ inductive Op
   | flush (ws : List (Entry × List RowWrite))      -- flush() / auto-flush with these pending statements
   | commit (ws : List (Entry × List RowWrite))     -- commit(): flush, then COMMIT
   | rollback                                       -- rollback()
+  | flushQuery (ws : List (Entry × List RowWrite)) (lock : Bool)          -- a (locking) SELECT with modifications pending: auto-flush
+  | flushDirect (ws : List (Entry × List RowWrite)) (e : Entry) (w : List RowWrite)   -- a direct write with modifications pending
   deriving Repr, Inhabited
 
 /-- `core.commit()`: flush (on failure rollback_and_reraise), then SessionCache.commit -/
-def coreCommit (opens : Entry → Bool) (flushImm : Bool) (a : A) (si : Bool) (ws : List (Entry × List RowWrite)) (f : Nat → Bool) : R :=
+def coreCommit (opens : Entry → Bool) (flushImm : Bool) (a : A) (si : Bool) (ddl : Bool) (ws : List (Entry × List RowWrite)) (f : Nat → Bool) : R :=
   let r := cacheFlush opens flushImm a ws f
   if !r.ok then
-    let r2 := closeRb r.a si (fun k => f (k + r.used))
+    let r2 := closeRb r.a si ddl (fun k => f (k + r.used))
     ⟨r.evs ++ r2.evs, r2.a, false, r.used + r2.used⟩
   else
-    let r2 := cacheCommit r.a si (fun k => f (k + r.used))
+    let r2 := cacheCommit r.a si ddl (fun k => f (k + r.used))
     ⟨r.evs ++ r2.evs, r2.a, r2.ok, r.used + r2.used⟩
 
-def runOp (opens : Entry → Bool) (flushImm : Bool) (si : Bool) (a : A) (op : Op) (f : Nat → Bool) : R :=
+def runOp (opens : Entry → Bool) (flushImm : Bool) (si : Bool) (ddl : Bool) (a : A) (op : Op) (f : Nat → Bool) : R :=
   match op with
   | .query => stmt a false .read f
   | .lockQuery => stmt a true .read f
   | .direct e ws => stmt a (opens e) (.write ws) f
   | .flush ws => cacheFlush opens flushImm a ws f
-  | .commit ws => coreCommit opens flushImm a si ws f
-  | .rollback => closeRb a si f
+  | .commit ws => coreCommit opens flushImm a si ddl ws f
+  | .rollback => closeRb a si ddl f
+  | .flushQuery ws lock => autoFlushStmt opens flushImm a lock ws .read f
+  | .flushDirect ws e w => autoFlushStmt opens flushImm a (opens e) ws (.write w) f
 
 /-- the body of the session; each operation may sit in the user's own try/except (`caught`).
     Returns the calls made and whether the body ended with an exception. -/
-def runBody (opens : Entry → Bool) (flushImm : Bool) (si : Bool) : A → List (Op × Bool) → (Nat → Bool) → R
+def runBody (opens : Entry → Bool) (flushImm : Bool) (si : Bool) (ddl : Bool) : A → List (Op × Bool) → (Nat → Bool) → R
   | a, [], _ => ⟨[], a, true, 0⟩
   | a, (op, caught) :: rest, f =>
-    let r := runOp opens flushImm si a op f
+    let r := runOp opens flushImm si ddl a op f
     if !r.ok && !caught then r
     else
-      let r2 := runBody opens flushImm si r.a rest (fun k => f (k + r.used))
+      let r2 := runBody opens flushImm si ddl r.a rest (fun k => f (k + r.used))
       ⟨r.evs ++ r2.evs, r2.a, r2.ok, r.used + r2.used⟩
 
-/-- `with db_session(immediate=si): body` — `db_session.__exit__`: commit() + release() when the body ended normally,
+/-- `with db_session(immediate=si, ddl=ddl): body` (a ddl session is immediate; its connection is dropped, not pooled) — `db_session.__exit__`: commit() + release() when the body ended normally,
     rollback() otherwise.  `bodyRaises`: the user's code itself raises at the end. -/
-def session (opens : Entry → Bool) (flushImm : Bool) (si : Bool) (a : A) (prog : List (Op × Bool)) (bodyRaises : Bool)
+def session (opens : Entry → Bool) (flushImm : Bool) (si : Bool) (ddl : Bool) (a : A) (prog : List (Op × Bool)) (bodyRaises : Bool)
     (f : Nat → Bool) : R :=
-  let r := runBody opens flushImm si a prog f
+  let r := runBody opens flushImm si ddl a prog f
   if !r.ok || bodyRaises then
-    let r2 := closeRb r.a si (fun k => f (k + r.used))
+    let r2 := closeRb r.a si ddl (fun k => f (k + r.used))
     ⟨r.evs ++ r2.evs, r2.a, false, r.used + r2.used⟩
   else
-    let r2 := coreCommit opens flushImm r.a si [] (fun k => f (k + r.used))
+    let r2 := coreCommit opens flushImm r.a si ddl [] (fun k => f (k + r.used))
     if !r2.ok then ⟨r.evs ++ r2.evs, r2.a, false, r.used + r2.used⟩
     else
-      let r3 := release r2.a si (fun k => f (k + r.used + r2.used))
+      let r3 := release r2.a si ddl (fun k => f (k + r.used + r2.used))
       ⟨r.evs ++ r2.evs ++ r3.evs, r3.a, r3.ok, r.used + r2.used + r3.used⟩
 
 /-- the state at the start of a session: nothing cached; the pool may hold a connection from an earlier session -/
@@ -191,6 +229,7 @@ def A.start (pool si : Bool) : A := { pool := pool, conn := false, inTx := false
 /-- user code calls only entry points it can reach -/
 def Op.wf : Op → Bool
   | .direct e _ => e.direct
+  | .flushDirect _ e _ => e.direct
   | _ => true
 
 end PonyVerif.Model.TxnEmit
